@@ -136,10 +136,16 @@ where
             // response of the first is still held (a connection has one channel per active request)
             if let Ok(pend2) = c.send_copy(9) {
                 if let Ok(Some(act2)) = s.receive() {
+                    // the higher channel gets a held response as well, the lower one a buffered, unreceived one
+                    let _ = act2.send_copy(72);
+                    if let Ok(Some(r2)) = pend2.receive() {
+                        g.add("response2", r2);
+                    }
                     g.add("active2", act2);
                 }
                 g.add("pending2", pend2);
             }
+            let _ = act.send_copy(71);
             g.add("port1", c);
             g.add("port2", s);
             g.add("pending", pend);
@@ -171,6 +177,7 @@ where
     // the plan's operations: drop slot k (mod number of slots still alive) or use what is alive
     for (opi, o) in plan.threads[0].iter().enumerate() {
         let what = format!("op #{opi} {}{:?}", o.c, o.a);
+        crate::kit::crashnote::set(&format!("{what} (pattern {pattern}, objects dropped so far {:?})", errs.lock().map(|e| e.drop_order.clone()).unwrap_or_default()));
         match o.c.as_str() {
             "drop" => {
                 let alive: Vec<usize> = (0..g.objs.len()).filter(|i| g.objs[*i].is_some()).collect();
@@ -256,6 +263,11 @@ where
                                 e.err("survivor", format!("{what}: the second held request payload changed to {}", **a));
                             }
                             let _ = a.send_copy(72);
+                        }
+                        if let Some(r) = g.get::<iceoryx2::response::Response<S, u64, ()>>("response2") {
+                            if *r.payload() != 72 {
+                                e.err("survivor", format!("{what}: the held response of the second request changed to {}", *r.payload()));
+                            }
                         }
                         if let Some(r) = g.get::<iceoryx2::response::Response<S, u64, ()>>("response") {
                             if *r.payload() != 70 {
@@ -369,6 +381,7 @@ impl Harness for ShutdownHarness {
         let e2 = errs.clone();
         let plan2 = plan.clone();
         let ipc = self.ipc;
+        crate::kit::crashnote::install_segv_reporter();
         let mut report = sim_run(cfg.to_cfg(), dec, move || {
             if ipc {
                 let _ = scenario::<ipc::Service>(&plan2, &e2);
